@@ -168,6 +168,10 @@ def _build(ir, r, ctor=True):
             for x in kids[1:]:
                 acc = (acc & x) if k == 'And' else (acc | x)
             return acc
+        if style == 'op' and ir[2] is None and k == 'And' and len(kids) == 2 and not _is_mish(kids[0]) \
+                and isinstance(kids[1], (matching._MType, matching._MExpr)) and not hasattr(type(kids[0]), '__and__'):
+            # a left operand without an & of its own (a Val, a tuple, a callable ...): Python asks the M expression on the right
+            return kids[0] & kids[1]
         return cls(*kids) if ir[2] is None else cls(*kids, default=B(ir[2]))
     if k == 'Not':
         inner = B(ir[1])
@@ -337,8 +341,11 @@ def spec_coq(ir):
     raise ValueError(ir)
 
 
-def run_glom(case):
-    """case: {target: V, spec: IR, scope?: [[k, V]]}; returns outcome with value / exception and the probe log"""
+def run_glom(case, entry='glom'):
+    """case: {target: V, spec: IR, scope?: [[k, V]]}; returns outcome with value / exception and the probe log.
+    entry: which public entry point evaluates it — glom.glom(t, spec, scope=) | 'spec': Spec(spec).glom(t, scope=) |
+    'spec-split': Spec(spec, scope=<the scope>).glom(t, scope={}) | 'spec-own': Spec(spec, scope=<the scope>).glom(t) |
+    'glommer': Glommer().glom(t, spec, scope=)"""
     import glom
     r = pyval.Realiser()
     target = r.build(case['target'])
@@ -350,7 +357,16 @@ def run_glom(case):
         before = dict(kw['scope'])
     del pyval.CALL_LOG[:]
     try:
-        res = glom.glom(target, spec, **kw)
+        if entry == 'glom':
+            res = glom.glom(target, spec, **kw)
+        elif entry == 'spec':
+            res = glom.Spec(spec).glom(target, **kw)
+        elif entry == 'spec-split':
+            res = glom.Spec(spec, scope=kw.get('scope', {})).glom(target, scope={})
+        elif entry == 'spec-own':
+            res = glom.Spec(spec, scope=kw.get('scope', {})).glom(target)
+        else:
+            res = glom.Glommer().glom(target, spec, **kw)
         out = {'ok': r.encode(res)}
         leaks = spec_leaks(res)
         if leaks:
